@@ -886,6 +886,16 @@ fn main() {
             wi(&mut s, v);
         }
         do_stream(&mut cx, s, "pin-overflow", true);
+        // TICK_SKIP with the largest dt values, as the first record and after earlier ticks
+        for dt in [i32::MAX, i32::MAX - 1, i32::MAX - 2, i32::MIN, -1] {
+            for pre in [vec![], vec![-2, 0], vec![-2, 1], vec![-2, 0, -2, 0]] {
+                let mut s = header("2");
+                for v in pre.iter().chain([-2, dt, -8, 1, -1].iter()) {
+                    wi(&mut s, *v);
+                }
+                do_stream(&mut cx, s, "pin-overflow", true);
+            }
+        }
         // largest client id in a record that does not allocate per-client state
         let mut s = header("2");
         for v in [-8, i32::MAX, -1] {
